@@ -249,6 +249,16 @@ class Info(PyNative):
         else:
             self.max = sym.FLOAT_MAX[n]
             self.min = -self.max
+            eb, sb = sym.FLOAT_DTYPES[n]
+            self.eps = 2.0 ** -(sb - 1)
+            self.bits = {"float16": 16, "bfloat16": 16, "float32": 32, "float64": 64}.get(n, 8)
+            # smallest positive normal number
+            self.tiny = self.smallest_normal = {"float16": 2.0 ** -14, "bfloat16": 2.0 ** -126, "float32": 2.0 ** -126, "float64": 2.0 ** -1022,
+                                                "float8_e4m3fn": 2.0 ** -6, "float8_e5m2": 2.0 ** -14, "float8_e4m3fnuz": 2.0 ** -7, "float8_e5m2fnuz": 2.0 ** -15}[n]
+
+    def __getattr__(self, name):
+        # an attribute of torch.finfo / iinfo the model does not carry: undecided, not an AttributeError of the program
+        raise Unsupported(f"torch.{'iinfo' if self.d.name in sym.INT_DTYPES else 'finfo'}.{name}")
 
 
 class AtenNamespace(Namespace):
